@@ -150,7 +150,10 @@ func genC10(t *rapid.T) (crashCase, bool, []string) {
 		a, b := g.genVal(t, 2), g.genVal(t, 2)
 		op := pick(t, "op", "+", "-", "*", "/", "%", "^", "|", "&", "&~", "~~", "<&>", "<->", "++", "+>", "with", "without", "<", "<=", "=", "<:", "(<)", ">>", ">>>", "=>", "where", "orderby", "\\", "//", "->")
 		src := "(" + r.deep(g, a, 30) + ") " + op + " (" + r.deep(g, b, 30) + ")"
-		switch pick(t, "unary", "", "", "", "count", "single", "neg", "call", "dot", "pow") {
+		switch pick(t, "unary", "", "", "", "count", "single", "neg", "call", "dot", "pow", "relop", "relop") {
+		case "relop":
+			attr := pick(t, "relattr", "a", "b", "c", "@", "@item", "n")
+			src = "(" + r.deep(g, a, 30) + ") " + pick(t, "relform", "unnest "+attr, "nest "+attr, "nest |"+attr+"|n", "nest ~|"+attr+"|n", "rank (r: ."+attr+")", "rank (r: .)", "rank ."+attr, "nest |a, "+attr+"|n unnest n", "order \\x \\y x."+attr+" < y."+attr)
 		case "count":
 			src = "(" + r.lit(a) + ") count"
 		case "single":
